@@ -1,0 +1,22 @@
+//go:build verif
+// +build verif
+
+package HolidayUtil
+
+// VerifDataInUse returns the raw holiday table currently in use.
+func VerifDataInUse() string {
+	return dataInUse
+}
+
+// VerifNamesInUse returns a copy of the name list currently in use.
+func VerifNamesInUse() []string {
+	l := make([]string, len(namesInUse))
+	copy(l, namesInUse)
+	return l
+}
+
+// VerifReset restores the shipped table and names.
+func VerifReset() {
+	namesInUse = NAMES
+	dataInUse = data
+}
